@@ -201,7 +201,8 @@ class Ctx:
         self.checker_cmds.append("(clean copy) make -j16 && " + cmd)
         rc, out, dt = sh(cmd, cwd=dst, timeout=timeout)
         lines = [l.rstrip() for l in out.splitlines() if l.strip()]
-        ok = rc == 0 and any("Modules were successfully checked" in l for l in lines)
+        # with -silent coqchk prints only the context summary; success = exit status 0 and a summary
+        ok = rc == 0 and any(l.startswith("* Axioms:") for l in lines)
         if not ok:
             self.proof_broken = "coqchk failed:\n" + out[-2000:]
         shutil.rmtree(dst, ignore_errors=True)
